@@ -103,10 +103,10 @@ def coq_make(targets, timeout=3000):
     return rc == 0, out
 
 
-def theorems_of(prop_file):
-    """names of the Theorems stated in a Properties file"""
+def theorems_of(prop_file, kinds=("Theorem",)):
+    """names of the Theorems (or Examples) stated in a Properties file"""
     s = open(os.path.join(COQ, prop_file)).read()
-    return re.findall(r"^\s*Theorem\s+(\w+)", s, flags=re.M)
+    return re.findall(r"^\s*(?:%s)\s+(\w+)" % "|".join(kinds), s, flags=re.M)
 
 
 def coq_error_site(log):
